@@ -135,6 +135,7 @@ func NewDeployedRaft(o DeployedOpts, choose func(in *sched.Instance, id string, 
 		d.Insts = append(d.Insts, insts)
 	}
 	d.view.Shadow = d.Shadow
+	d.view.Crashed = d.Crashed // the same map: the invariants must know which servers can still vote
 	for c := 1; c <= nc; c++ {
 		cl := bootstrap.NewClient(c, cfg)
 		d.Clients = append(d.Clients, cl)
